@@ -311,6 +311,105 @@ static err_t call_beltprim(fc_ctx* c)
 	return ERR_OK;
 }
 
+/* small helpers no other descriptor reaches (tools/coverage.sh): the echo generator on a state of
+   exactly prngEcho_keep() and a seed of exactly seed_len octets, Luhn digits and hex case on
+   strings in blocks of exactly strlen + 1, CRC32 piecewise, errMsg, memIsAligned */
+#include "bee2/core/prng.h"
+#include "bee2/core/err.h"
+static void gen_small(fc_ctx* c)
+{
+	size_t i;
+	char* dec;
+	char* hex;
+	c->n[0] = 1 + fc_below(c, 40);           /* seed_len */
+	c->a[1] = fc_pub(c, c->n[0]);
+	c->n[1] = fc_below(c, 130);              /* octets drawn */
+	c->a[0] = fc_out(c, c->n[1] ? c->n[1] : 1);
+	c->n[2] = 1 + fc_below(c, 24);           /* decimal digits */
+	dec = (char*)fc_pub(c, c->n[2] + 2);
+	for (i = 0; i < c->n[2]; ++i)
+		dec[i] = (char)('0' + (octet)dec[i] % 10);
+	dec[c->n[2]] = 0, dec[c->n[2] + 1] = 0;
+	c->a[2] = dec;
+	c->n[3] = 2 * fc_below(c, 20);
+	hex = (char*)fc_pub(c, c->n[3] + 1);
+	for (i = 0; i < c->n[3]; ++i)
+		hex[i] = "0123456789abcdefABCDEF"[(octet)hex[i] % 22];
+	hex[c->n[3]] = 0;
+	c->a[3] = hex;
+	c->n[4] = fc_below(c, 200);
+	c->a[4] = fc_pub(c, c->n[4]);
+	c->a[5] = fc_out(c, 8 * sizeof(size_t));
+	c->a[6] = fc_out(c, c->n[3] + 1);
+	c->variant = (int)c->n[0];
+}
+static err_t call_small(fc_ctx* c)
+{
+	size_t* r = (size_t*)c->a[5];
+	octet* out = (octet*)c->a[0];
+	const octet* seed = (const octet*)c->a[1];
+	char* dec = (char*)c->a[2];
+	char* hx = (char*)c->a[6];
+	void* st = sk_alloc(prngEcho_keep());
+	size_t i, cut;
+	u32 crc1, crc2;
+	memset(r, 0, 8 * sizeof(size_t));
+	/* echo generator: the seed, repeated; in two pieces as well */
+	prngEchoStart(st, seed, c->n[0]);
+	cut = c->n[1] ? c->n[1] / 3 : 0;
+	prngEchoStepR(out, cut, st);
+	prngEchoStepR(out + cut, c->n[1] - cut, st);
+	sk_free(st);
+	for (i = 0; i < c->n[1]; ++i)
+		if (out[i] != seed[i % c->n[0]])
+			return ERR_BAD_LOGIC;
+	/* Luhn: the computed digit appended verifies, any other digit does not */
+	{
+		char d = decLuhnCalc(dec);
+		if (d < '0' || d > '9')
+			return ERR_BAD_LOGIC;
+		dec[c->n[2]] = d;
+		r[0] = (size_t)decLuhnVerify(dec);
+		dec[c->n[2]] = (char)('0' + (d - '0' + 1 + (int)fc_below(c, 9)) % 10);
+		r[1] = (size_t)decLuhnVerify(dec);
+		dec[c->n[2]] = 0;
+		if (!r[0] || r[1])
+			return ERR_BAD_LOGIC;
+	}
+	/* hex case */
+	memcpy(hx, c->a[3], c->n[3] + 1);
+	hexUpper(hx);
+	for (i = 0; i < c->n[3]; ++i)
+		if (hx[i] >= 'a' && hx[i] <= 'f')
+			return ERR_BAD_LOGIC;
+	if (!hexIsValid(hx) || hx[c->n[3]] != 0)
+		return ERR_BAD_LOGIC;
+	hexLower(hx);
+	for (i = 0; i < c->n[3]; ++i)
+		if (hx[i] >= 'A' && hx[i] <= 'F')
+			return ERR_BAD_LOGIC;
+	/* CRC32 of the whole equals CRC32 continued over two pieces */
+	cut = c->n[4] ? fc_below(c, (uint32_t)c->n[4] + 1) : 0;
+	crc1 = utilCRC32(c->a[4], c->n[4], 0);
+	crc2 = utilCRC32(c->a[4], cut, 0);
+	crc2 = utilCRC32((const octet*)c->a[4] + cut, c->n[4] - cut, crc2);
+	r[2] = crc1;
+	if (crc1 != crc2)
+		return ERR_BAD_LOGIC;
+	/* messages: every code the library defines has one or none; no crash on arbitrary codes */
+	for (i = 0; i < 700; ++i)
+	{
+		const char* m = errMsg((err_t)i);
+		if (m && strLen(m) == 0)
+			return ERR_BAD_LOGIC;
+	}
+	(void)errMsg((err_t)sk_u64(&c->rng));
+	r[3] = (size_t)memIsAligned(c->a[4], 1) + 2 * (size_t)memIsAligned((const octet*)0 + 24, 8) + 4 * (size_t)memIsAligned((const octet*)0 + 20, 8);
+	if (r[3] != 3)
+		return ERR_BAD_LOGIC;
+	return ERR_OK;
+}
+
 #define D(NAME, GEN, CALL) { NAME, GEN, CALL, 0, FC_MATH }
 const fc_desc fc_util[] = {
 	D("str helpers", gen_str, call_str),
@@ -320,5 +419,6 @@ const fc_desc fc_util[] = {
 	D("rngTestFIPS1-4", gen_fips, call_fips),
 	D("btokCVCLen", gen_cvclen, call_cvclen),
 	D("belt block/key primitives+WBLStepR", gen_beltprim, call_beltprim),
+	D("small helpers (prngEcho, Luhn, hex case, CRC32, errMsg)", gen_small, call_small),
 };
 const unsigned fc_util_n = sizeof(fc_util) / sizeof(fc_util[0]);
